@@ -26,6 +26,12 @@ Fixpoint split_lines (cur : list N) (s : list N) : list (list N) :=
          end) :: split_lines [] r
       else split_lines (c :: cur) r
   end.
+(** one U+000D at the end of a line is dropped *)
+Definition strip_cr (l : list N) : list N :=
+  match rev l with
+  | 13 :: r => rev r
+  | _ => l
+  end.
 Definition file_content (raw : list (list N)) : list N := flat_map (fun l => l ++ [10]) raw.
 Definition lines_of_file (raw : list (list N)) : list (list N) := split_lines [] (file_content raw).
 
